@@ -1,0 +1,31 @@
+//go:build verif
+
+package mint
+
+import (
+	"net/http"
+
+	"github.com/elnosh/gonuts/mint/storage"
+)
+
+// VerifLoadWrap, when set, wraps the storage of every mint loaded afterwards
+// (before LoadMint makes any further storage call).
+var VerifLoadWrap func(storage.MintDB) storage.MintDB
+
+func verifWrapLoad(db storage.MintDB) storage.MintDB {
+	if VerifLoadWrap != nil {
+		return VerifLoadWrap(db)
+	}
+	return db
+}
+
+// VerifWrapDB replaces the storage held by a loaded mint.
+func (m *Mint) VerifWrapDB(wrap func(storage.MintDB) storage.MintDB) {
+	m.db = wrap(m.db)
+}
+
+// VerifDB returns the storage currently held by the mint.
+func (m *Mint) VerifDB() storage.MintDB { return m.db }
+
+// VerifHandler exposes the HTTP handler for in-process requests.
+func (ms *MintServer) VerifHandler() http.Handler { return ms.httpServer.Handler }
